@@ -188,6 +188,13 @@ def jobs(tier, seed):
                                scenario='append', tier=tier))
         js.append(dict(compress=compress, nprev=0, kind='warcinfo',
                        scenario='construct', tier=tier))
+        # a new run that appends to the archive of an earlier one (--warc-append): its first
+        # append is the constructor's warcinfo record, onto records that must survive
+        for nprev in prevs[:2] if tier == 'quick' else prevs:
+            js.append(dict(compress=compress, nprev=nprev, kind='warcinfo',
+                           scenario='construct-append', tier=tier))
+        js.append(dict(compress=compress, nprev=2, kind='warcinfo',
+                       scenario='construct-append', tier=tier, split=True))
         js.append(dict(compress=compress, nprev=2, kind='small', scenario='append', tier=tier,
                        split=True))
         js.append(dict(compress=compress, nprev=0, kind='warcinfo', scenario='construct',
@@ -213,7 +220,8 @@ def run_job(job, cap=5):
     tag = '%s/%s/prev=%d/%s%s%s' % ('gz' if compress else 'plain', kind, job['nprev'], scen,
                                     '/numbered' if job.get('split') else '',
                                     '/prefix=' + job['prefix'] if job.get('prefix') else '')
-    template = build_template(compress, job['nprev']) if scen == 'append' else None
+    template = build_template(compress, job['nprev']) \
+        if scen in ('append', 'construct-append') else None
     seen = set()
 
     def viol(msg, cls, **kw):
